@@ -261,6 +261,27 @@ func c14Getters(c *hx.Ctx, r *hx.RNG) {
 				}
 			}
 		}
+		// results belong to the caller: using a returned Rat or Int as a variable of its own (math/big setters write into the
+		// storage they find) must not change what the next conversion returns
+		if v.Form == oracle.Finite {
+			q1, _ := x.Rat(nil)
+			i1, _ := x.Int(nil)
+			if q1 != nil && i1 != nil {
+				q1.SetFrac64(int64(r.Range(1, 99)), 7)
+				q1.SetInt64(3)
+				i1.SetInt64(-12345)
+				i1.Lsh(i1, 70)
+				q2, _ := x.Rat(nil)
+				i2, _ := x.Int(nil)
+				if q2 == nil || q2.Cmp(valRat(v)) != 0 {
+					bad("Rat", "after the previously returned Rat had been reused as a variable, Rat = %v, want %v", q2, valRat(v))
+				}
+				if i2 == nil || i2.Cmp(ip) != 0 {
+					bad("Int", "after the previously returned Int had been reused as a variable, Int = %v, want %v", i2, ip)
+				}
+				c.Count("returned_big_values_reused", 1)
+			}
+		}
 		// IsInt, MinPrec, Sign
 		wantInt := v.Form == oracle.Zero || (v.Form == oracle.Finite && !frac)
 		if x.IsInt() != wantInt {
